@@ -44,7 +44,7 @@ func init() {
 			if t == "thorough" {
 				return 4800
 			}
-			return 96
+			return 192
 		},
 		InProcess: true,
 		Workers:   func(string) int { return 24 },
@@ -61,7 +61,7 @@ func ConfChildMain() int {
 	return 0
 }
 
-var argvWords = []string{"-t", "-T", "t", "--t", "-t ", "", "-x", "--help"}
+var argvWords = []string{"-t", "-T", "t", "--t", "-t ", "", "-x", "--help", "-t\r", "-t\n", "-t\r\n", "-t\t", " -t", "-tt", "-t=", "\u2212t", "-t\v", "-test"}
 
 var ifbMu sync.Mutex
 
